@@ -56,7 +56,8 @@ class C09(Machine):
     }
     rule = ("one evaluation = one simulated run: 1-2 clients each driving a padding object's iterblocks generator one pull at "
             "a time through 1-2 messages (0-3 block-aligned continuation calls incl. empty pieces, then a final call; optional "
-            "bit length; call after the final block; refused requests; abandon + reset); block bytes, block length, bitcnt at "
+            "bit length; call after the final block; refused requests; abandon + reset; a continuation call abandoned part-way and the "
+            "message carried on from the bits handed out); block bytes, block length, bitcnt at "
             "every yield, padcnt/padflag after the final block, block count and refusals compared with the reference layout "
             "model. distinct = distinct abstract traces (scheme, block-size class, call kinds, piece-length classes, pulls, "
             "abandon/reset); non-trivial = the run has a continuation call, an abandon+reset, a call after the final block, "
@@ -107,9 +108,16 @@ class C09(Machine):
             if abandon_at == ci and n > 0:
                 j = rng.randrange(n)
                 sid = self._call(pb, c, o, piece, {"padding": False}, "cont", j, sess, extra_pull=False)
-                if rng.random() < 0.5:
+                go_on = rng.random() < 0.5
+                if go_on or rng.random() < 0.5:
                     pb.step(c, k="close", gen=sid, obj=o, tag="close", role="close")
                 sess["calls"][-1]["abandoned"] = True
+                if go_on:
+                    # the consumer stopped reading this continuation call after j blocks and carries on with
+                    # the rest of its message: the counter continues from the bits it was handed
+                    sess["calls"][-1]["resumed"] = True
+                    prior += 8 * nB * j
+                    continue
                 return False
             self._call(pb, c, o, piece, {"padding": False}, "cont", n, sess, extra_pull=rng.random() < 0.5)
             prior += 8 * len(piece)
@@ -361,6 +369,11 @@ class C09(Machine):
                         break
                 if bad:
                     break
+                if len(pulls) < len(blocks) and ck == "cont" and call.get("resumed"):
+                    probe("abandoned_continuation_then_continued")
+                    nontrivial = True
+                    prior += 8 * nB * len(pulls)
+                    continue
                 if len(pulls) < len(blocks):
                     dirty = True        # abandoned part-way (or shrunk): nothing is promised until reset
                     probe("abandoned_generator")
